@@ -13,6 +13,29 @@ CHECKS = {
         design="3/C06"),
 }
 
+CHECKS.update({
+    "C01": dict(
+        technique="property-based testing: Hypothesis documents with identifier-hostile names x 4 metadata flavours x switches; validity-predicate oracle (compile, import in-process and in a fresh interpreter, relative-import closure by AST, ruff F821/F822, tomllib)",
+        text="Hundreds (quick) to thousands (thorough) of generated documents per run are pushed through the generator and every emitted file is compiled, every module imported, every relative import at any depth resolved to a generated binding and pyproject.toml parsed. Finds classes of input that break importability; cannot show absence.",
+        note="name pool is quote-free by the property's own quantifier; scope-distinct names (merging is C09); known narrow classes are excluded by construction while their findings are live and counted in evidence",
+        design="3/C01"),
+    "C02": dict(
+        technique="property-based testing: round-trip oracle (from_dict/to_dict) over Hypothesis-generated schemas and jsonschema-cross-validated instances",
+        text="For every generated object component several schema-valid instances (all presence patterns, nulls, union branches, extra keys) are decoded, re-encoded and compared under strict JSON equality, then re-decoded and compared for object equality; the encoded form must be plain JSON. ~4k (quick) to ~190k (thorough) round trips per run.",
+        note="instances are produced by the harness' own generator and cross-checked with jsonschema; plain strings never look like dates/uuids; three narrow union classes are listed findings",
+        design="3/C02"),
+    "C03": dict(
+        technique="property-based testing: reference model of the wire request vs requests captured by an httpx MockTransport, sync vs asyncio differential",
+        text="Generated operations (all methods, parameters of every kind in every location, JSON/form/multipart/octet bodies, security) are called with generated arguments through the generated sync_detailed and asyncio_detailed functions; the single captured request must match a reference model (method, path slots, query/header/cookie names and typed parse-back of values, omitted optionals absent, body content and Content-Type, credential header) and both variants must send the same request.",
+        note="python argument names are looked up in the generator's parse result (locating only); text forms compared by typed parse-back; six narrow classes are listed findings and excluded by construction",
+        design="3/C03"),
+    "C04": dict(
+        technique="property-based testing: reference decode of served responses (canned httpx responses through a MockTransport) over all four call variants",
+        text="For generated operations every documented status is served with an encoded schema-valid instance and undocumented statuses with arbitrary bodies, under both raise_on_unexpected_status settings and all four call variants; parsed values are compared with the instance by generic re-encoding plus kind-specific type checks; status/headers/content of detailed variants are compared exactly.",
+        note="empty/Any schemas and non-string schemas under text/* are asserted only for status/headers/content; non-standard server status codes are a listed finding",
+        design="3/C04"),
+})
+
 NOT_YET = {}
 
 def main():
